@@ -504,7 +504,8 @@ FORMULA_PAIR_DATES = [SER(d) for d in (
     D(2020, 2, 29), D(2020, 3, 1), D(2020, 3, 15), D(2020, 3, 31),
     D(2020, 12, 31), D(2021, 1, 1), D(2021, 2, 28), D(2021, 3, 1),
     D(2000, 2, 29), D(1999, 12, 31), D(2004, 2, 29), D(2024, 2, 29),
-    D(2012, 1, 1), D(2012, 7, 30), D(1900, 3, 1), D(1950, 6, 15))]
+    D(2012, 1, 1), D(2012, 7, 30), D(1900, 3, 1), D(1950, 6, 15),
+    D(1900, 2, 28), D(1900, 1, 1), D(2019, 2, 28), D(2019, 3, 28))]
 
 
 def datedif_cap(tier, unit):
@@ -582,7 +583,7 @@ def pair_case(s1, s2, tier, ctx, route='num'):
 
     # DAYS(end, start) and subtraction: every ordered pair, both signs
     try:
-        want = ref.days_between(s1, s2)
+        want = ref.serial_difference(s1, s2)
     except ref.Unjudged as u:
         ctx.skip(u.args[0], 2)
     else:
